@@ -25,6 +25,16 @@ def fasta_exts(pe):
 	return FASTA_EXT
 
 
+FILEID = z3.Function('fileid', STR, STR)    # THE label get_file_id derives from a path string
+
+
+def fileid(pe, s):
+	return SStr(FILEID(to_term(s)))
+
+
+NS['fileid'] = fileid
+
+
 NS['concat'] = concat
 NS['has_slash'] = has_slash
 NS['ends_with_any'] = ends_with_any
@@ -47,5 +57,63 @@ def register(reg):
 		types={'path': Str, 'strip_dir': Const(True), 'strip_ext': Const(True)},
 		ghost={'d': Str, 'stem': Str},
 		ensures=label_clauses,
+		defines=['result == fileid(path)'],   # fileid(s) IS the value of this (pure, deterministic) function
 		returns=Str,
+	)
+
+
+
+TPath = TObj('PathV')
+TPath.field('pathstr', TStr)
+from pyvc.libspec.conc import TFile
+TFile.field('path', TPath).field('format', TStr).field('compression', TOpt(TStr))
+PNORM = z3.Function('pnorm', STR, STR)         # str(Path(s)): pathlib's normalisation of a path string
+PJOIN = z3.Function('pjoin', STR, STR, STR)    # str(Path(d) / s)
+
+
+def pnorm(pe, s):
+	return SStr(PNORM(to_term(s)))
+
+
+def pjoin(pe, d, s):
+	return SStr(PJOIN(to_term(d), to_term(s)))
+
+
+NS['pnorm'] = pnorm
+NS['pjoin'] = pjoin
+
+
+TListFile = TObj('ListFile')
+_SeqStr = TSeq(TStr)
+LINES = z3.Function('lines_of', TListFile.sort, _SeqStr.sort)   # the stripped non-empty lines of a list file, in order
+
+
+def lines_of(pe, f):
+	return _SeqStr.wrap(LINES(f.term))
+
+
+NS['lines_of'] = lines_of
+
+
+from pyvc.modules import ClassRef as _CR
+_SF = _CR('gambit.seq.SequenceFile')
+
+
+def register_files(reg):
+	reg.contract('gambit.seq.SequenceFile.from_paths', types={'cls': Const(_SF), 'paths': SeqOf(TSpec(TPath)), 'format': Str, 'compression': Opt(Str)},
+		ensures=['len(result) == len(paths)', 'forall(i, 0 <= i, i < len(paths), result[i].path == paths[i] and result[i].format == format and result[i].compression == compression)'],
+		returns=SeqOf(Obj('SequenceFile'), ref=True))
+	reg.contract('gambit.util.io.read_lines', yields=TStr, trusted=True,
+		ensures=['len(Y) == len(lines_of(file_or_path))', 'forall(j, 0 <= j, j < len(Y), Y[j] == lines_of(file_or_path)[j])'],
+		note='stripped, non-empty lines of the list file in file order (text-file iteration is the library\'s)')
+	FILE_OK = 'result[1][i].format == "fasta" and result[1][i].compression == "auto"'
+	reg.contract(CC + 'get_sequence_files',
+		types={'strip_dir': Const(True), 'strip_ext': Const(True)},
+		requires=['isnone(explicit) or len(explicit) > 0', 'not (isnone(explicit) and isnone(listfile))'],
+		ensures=['implies(not isnone(explicit), len(result[0]) == len(explicit) and len(result[1]) == len(explicit))',
+		         'implies(not isnone(explicit), forall(i, 0 <= i, i < len(explicit), result[0][i] == fileid(pnorm(explicit[i]))'
+		         ' and result[1][i].path.pathstr == pnorm(explicit[i]) and ' + FILE_OK + '))',
+		         'implies(isnone(explicit), len(result[0]) == len(lines_of(listfile)) and len(result[1]) == len(lines_of(listfile)))',
+		         'implies(isnone(explicit), forall(i, 0 <= i, i < len(lines_of(listfile)), result[0][i] == fileid(lines_of(listfile)[i])'
+		         ' and result[1][i].path.pathstr == pjoin(pnorm(listfile_dir), lines_of(listfile)[i]) and ' + FILE_OK + '))'],
 	)
